@@ -8,7 +8,7 @@ CONSTANTS
   Delays = {1}
   WishItems = 2
   DefaultIval = 9
-  EnvOps = {"search", "cmd", "wlmsg", "remove", "reply", "rheld"}
+  EnvOps = {"search", "cmd", "wlmsg", "remove", "reply", "rheld", "searchrm", "sheld", "recmd"}
   MaxOps = 7
   MaxTime = 6
   MaxTasks = 6
@@ -18,6 +18,9 @@ CONSTANTS
   SharedGen = TRUE
   EmitBeforeClose = TRUE
   MaxHeld = 2
+  MaxSHeld = 2
+  StartBeforeEmit = TRUE
+  CmdFreshTicket = TRUE
 INVARIANT TypeOK
 INVARIANT DistinctTickets
 INVARIANT RegistryExact
